@@ -210,17 +210,8 @@ def _siblings(ck, repo):
     g = gv.maybe_call("gather")
     ok = g is not None and [unparse(a) for a in g.args] == ["*coroutines"] and arg_text(g, None, "return_exceptions") == "True" and isinstance(gv.stmt_of(g), ast.Return)
     ck.ob("gather_arguments_coercer: gathers its operands with failures as values, returned in order", ok, ga, g or ga.node, construct="siblings:args:gather")
-    lp = [l for l in s2.loops() if isinstance(l, ast.For) and unparse(l.iter) == "coroutines"]
-    ok = False
-    if len(lp) == 1:
-        aw = [a for a in s2.awaits() if contains(lp[0], a) and unparse(a.value) == unparse(lp[0].target)]
-        h = s2.in_broad_try(aw[0]) if aw else None
-        ap = [c for c in s2.calls("append") if contains(lp[0], c)]
-        ok = len(aw) == 1 and h is not None and h.name and any(isinstance(s, ast.Assign) and unparse(s.value) == h.name for s in h.body) and len(ap) == 1 and \
-            not contains(h, ap[0]) and not any(isinstance(n, (ast.Break, ast.Return, ast.Continue)) for n in walk_no_nested(lp[0]))
-        rets = s2.returns()
-        ok = ok and len(rets) == 1 and unparse(rets[0].value) == unparse(ap[0].func.value)
-    ck.ob("sync_arguments_coercer: awaits each operand in order, failures as values, one result slot per operand", ok, sa_, lp[0] if lp else sa_.node, construct="siblings:args:sync")
+    from .c05 import sync_arguments_terms
+    sync_arguments_terms(ck, repo, "siblings:args:sync")
     ck.ob("arguments coercers: same signature", ga.params == sa_.params, ga, ga.node, construct="siblings:args:signature")
     # execute_fields arms: same callee and operands for the awaited-now and the deferred arm (it is one call)
     e = repo.func("tartiflette/execution/execute.py", "execute_fields")
